@@ -233,6 +233,80 @@ fn check_pipeline(ctx: &mut Ctx, rng: &mut Rng, stages: &[Vec<String>]) {
     }
 }
 
+/// Pipelines of programs found through PATH, some of them named like reserved words of the shell: `|` starts a new
+/// command, so every program name of a printed pipeline stands at command position.
+fn check_pipeline_command_positions(ctx: &mut Ctx, rng: &mut Rng) {
+    let dir = ctx.scratch("c19q");
+    let dumps = ctx.scratch("c19qd");
+    let n = rng.range(2, 5) as usize;
+    let mut pool: Vec<String> = ["if", "then", "else", "elif", "fi", "do", "done", "case", "esac", "while", "until", "for", "in"].iter().map(|s| s.to_string()).collect();
+    let odd = ['a', 'Z', '9', '_', '-', '.', ',', '+', '@', '%', ':', '~', '#', '!', '^', '{', '}', '[', ']', ' ', '$', '&', ';', '\'', '"', '*', '?', '(', ')', '<', '>', '|', '\\', 'é'];
+    let mut progs: Vec<String> = vec![];
+    let mut reserved_later = false;
+    for j in 0..n {
+        let p = if rng.chance(500) && !pool.is_empty() {
+            reserved_later |= j > 0;
+            pool.swap_remove(rng.below(pool.len() as u64) as usize)
+        } else {
+            format!("p{}{}", j, (0..rng.range(0, 6)).map(|_| *rng.pick(&odd)).collect::<String>())
+        };
+        let link = dir.join(&p);
+        if std::fs::hard_link(&ctx.vchild, &link).is_err() && std::fs::copy(&ctx.vchild, &link).is_err() {
+            return;
+        }
+        progs.push(p);
+    }
+    let args: Vec<Vec<String>> = (0..n).map(|_| (0..rng.below(3)).map(|_| rand_word(rng, 8)).collect()).collect();
+    let mut execs: Vec<Exec> = progs.iter().zip(args.iter()).map(|(p, a)| Exec::cmd(p).args(a)).collect();
+    let pl: Pipeline = if rng.chance(500) || n < 3 {
+        Pipeline::from_exec_iter(execs)
+    } else {
+        let rest = execs.split_off(2);
+        let mut it = execs.into_iter();
+        let mut p = it.next().unwrap() | it.next().unwrap();
+        for e in rest {
+            p = p | e;
+        }
+        p
+    };
+    let dbg = if rng.chance(500) { format!("{:?}", pl) } else { format!("{:#?}", pl) };
+    ctx.count("pipelines_evaluated_at_command_positions", 1);
+    if reserved_later {
+        ctx.count("pipelines_with_a_reserved_word_as_a_later_program", 1);
+    }
+    let inner = match strip(dbg.trim_end(), "Pipeline { ") {
+        Some(s) => s.to_string(),
+        None => {
+            ctx.violation("C19/pipeline-debug-format", "Debug output is not of the form `Pipeline { a | b }`", J::s(&dbg));
+            return;
+        }
+    };
+    let st = std::process::Command::new("/bin/sh")
+        .arg("-c")
+        .arg(&inner)
+        .env("PATH", &dir)
+        .env("VCHILD_DUMP_DIR", &dumps)
+        .stdin(std::process::Stdio::null())
+        .stdout(std::process::Stdio::null())
+        .stderr(std::process::Stdio::null())
+        .status();
+    for (j, p) in progs.iter().enumerate() {
+        let data = std::fs::read(dumps.join(format!("{}.argv", p))).unwrap_or_default();
+        let mut got: Vec<String> = data.split(|&c| c == 0).map(|b| String::from_utf8_lossy(b).into_owned()).collect();
+        got.pop();
+        let mut want = vec![p.clone()];
+        want.extend(args[j].iter().cloned());
+        if got != want {
+            ctx.violation(
+                &format!("C19/pipeline-command-position/{}", if j == 0 { "first" } else { "later" }),
+                &format!("running the printed pipeline with sh does not start program {} with its arguments", j),
+                J::obj().set("programs", J::arr_s(&progs)).set("debug", J::s(&dbg)).set("sh_started", J::arr_s(&got)).set("sh_status", J::s(&format!("{:?}", st.as_ref().map(|s| s.code())))),
+            );
+            return;
+        }
+    }
+}
+
 fn rand_word(rng: &mut Rng, maxlen: u64) -> String {
     let len = rng.below(maxlen + 1);
     let special = ['\'', '"', '\\', '$', '`', '*', '?', '[', ']', '{', '}', '(', ')', '<', '>', '|', '&', ';', '!', '~', '#', ' ', '\t', '\n', '=', '%', '-', '^', '\r', '\x7f', '\x01'];
@@ -294,6 +368,11 @@ pub fn run(ctx: &mut Ctx) {
     ctx.family("command-position", nc, |ctx, rng, _i| {
         check_command_position(ctx, rng);
         crate::run::end_case(); // removes the scratch directory
+    });
+    let nq = ctx.n(300, 6000);
+    ctx.family("pipeline-command-positions", nq, |ctx, rng, _i| {
+        check_pipeline_command_positions(ctx, rng);
+        crate::run::end_case();
     });
     let np = ctx.n(400, 8000);
     ctx.family("pipelines", np, |ctx, rng, _i| {
